@@ -9,8 +9,8 @@ from fractions import Fraction
 from .common import fhex, evals
 
 PROP_FILE = "Properties/C07.v"
-GEN = ["GenC07"]
-RUN_FILES = ["Model/C07_run.v"]
+GEN = ["GenC07", "GenC07imp"]
+RUN_FILES = ["Model/C07_run.v", "Model/C07_imp_run.v"]
 
 NAN = float("nan")
 INF = float("inf")
@@ -521,6 +521,42 @@ def coq_hist_case(case, o):
     return "((%d), [%s], [%s], [%s])" % (ar["w"] * ar["h"], "; ".join(chunks0), "; ".join(calls), "; ".join(exps))
 
 
+def coq_imp_hist_case(case, o):
+    """the same history for the methods GENERATED from /repo (Model/C07_imp_run.v: chk_imp_history); data as lists of chunks"""
+    u = lambda l: [unhex(v) for v in l]
+    ar = case["area"]
+    pos, chunks0 = 0, []
+    for c in o["idx_chunks"]:
+        chunks0.append(zl(o["idxs"][pos:pos + c]))
+        pos += c
+
+    def chunked(vals, lens):
+        out, p_ = [], 0
+        for c in lens:
+            out.append(dl(vals[p_:p_ + c]))
+            p_ += c
+        return "[" + "; ".join(out) + "]"
+    calls, exps = [], []
+    for hh in o["history"]:
+        if hh["op"] == "count":
+            calls.append("ICount")
+            exps.append("HIZ %s" % zl(hh["out"]))
+        elif hh["op"] == "sum":
+            calls.append("ISum %s %s %s %s" % (chunked(u(case["data"]), hh["lens"]), to_dat(unhex(case["fill"])),
+                                              "true" if case["skipna"] else "false", to_dat(unhex(case["ebv"]))))
+            exps.append("HID %s" % dl(u(hh["out"])))
+        elif hh["op"] == "average":
+            calls.append("IAvg %s %s %s" % (chunked(u(case["data"]), hh["lens"]), to_dat(unhex(case["fill"])), "true" if case["skipna"] else "false"))
+            exps.append("HIF %s" % fl(u(hh["out"])))
+        elif hh["op"] == "fractions":
+            calls.append("IFrac %s [(%d)] %s" % (chunked(u(case["fdata"]), hh["lens"]), int(hh["cat"]), to_dat(unhex(case["ffill"]))))
+            exps.append("HIFr [((%d), %s)]" % (int(hh["cat"]), fl(u(hh["out"]))))
+        else:
+            calls.append("%s %s" % ("IMin" if hh["op"] == "min" else "IMax", chunked(u(case["fdata"]), hh["lens"])))
+            exps.append("HID %s" % dl(u(hh["out"])))
+    return "((%d), [%s], [%s], [%s])" % (ar["w"] * ar["h"], "; ".join(chunks0), "; ".join(calls), "; ".join(exps))
+
+
 STAT_NAMES = ["count", "sum", "average", "min", "max", "absmax", "fractions", "chunked_histogram"]
 
 
@@ -590,7 +626,7 @@ def run(ctx):
     outs, kobs = run_impl(ctx, cases, kernels, shards=ctx.n(8, 12))
     t_impl = time.time() - t0
 
-    idx_lines, stat_lines, stat_ids, hist_lines = [], [], [], []
+    idx_lines, stat_lines, stat_ids, hist_lines, ihist_lines = [], [], [], [], []
     for ci, (case, oo) in enumerate(zip(cases, outs)):
         fails = judge(case, oo)
         good = [o for o in oo if "error" not in o]
@@ -631,6 +667,7 @@ def run(ctx):
             stat_ids.append(ci)
             if o.get("history"):
                 hist_lines.append(coq_hist_case(case, o))
+                ihist_lines.append(coq_imp_hist_case(case, o))
         except ValueError as e:
             if not fails:
                 ctx.broken.append(("correspondence:statistics", "case %d: implementation output is not integer valued: %s" % (ci, e)))
@@ -646,6 +683,10 @@ def run(ctx):
     for s in range(0, len(hist_lines), 150):
         texts.append(("c07_hist_%03d" % (s // 150), HDR + "Definition cases : list hcase := [%s].\nEval vm_compute in (bad chk_history cases).\n"
                       % ";\n".join(hist_lines[s:s + 150]), "history", s))
+    ihdr = HDR.replace("Model.C07_run Gen.GenC07.", "Model.C07_run Gen.GenC07 Base.Imp Model.ImpBucket Gen.GenC07imp Model.C07_imp_run.")
+    for s in range(0, len(ihist_lines), 150):
+        texts.append(("c07_imphist_%03d" % (s // 150), ihdr + "Definition cases : list ihcase := [%s].\nEval vm_compute in (bad chk_imp_history cases).\n"
+                      % ";\n".join(ihist_lines[s:s + 150]), "imp_history", s))
     klines = []
     for (a, b), inv, am in zip(kernels, kobs["invalid"], kobs["absmax"]):
         try:
@@ -686,8 +727,9 @@ def run(ctx):
             import re
             bad = [int(x) for x in re.findall(r"-?\d+", re.sub(r"%[a-zA-Z]+", "", val))]
             if bad:
-                line = (idx_lines if kind == "idx" else hist_lines if kind == "history" else klines)[off + bad[0]]
-                ctx.broken.append(("correspondence:" + ("indices" if kind == "idx" else "history" if kind == "history" else "kernels"),
+                line = (idx_lines if kind == "idx" else hist_lines if kind == "history" else ihist_lines if kind == "imp_history" else klines)[off + bad[0]]
+                ctx.broken.append(("correspondence:" + ("indices" if kind == "idx" else "history" if kind == "history"
+                                                        else "generated_methods_history" if kind == "imp_history" else "kernels"),
                                    "model and implementation differ on %d cases of shard %s, e.g. %s" % (len(bad), name, line[:300])))
     ctx.traces = len(stat_lines)
     ctx.notes += [
